@@ -61,7 +61,14 @@ func (s *signer) Unmarshal(bytes []byte) error {
 		return fmt.Errorf("cannot unmarshal signer: [%w]", err)
 	}
 
+	if pbSigner.Wallet == nil {
+		return fmt.Errorf("missing wallet")
+	}
+
 	walletPublicKey := unmarshalPublicKey(pbSigner.Wallet.PublicKey)
+	if walletPublicKey.X == nil || walletPublicKey.Y == nil {
+		return fmt.Errorf("invalid wallet public key")
+	}
 
 	walletSigningGroupOperators := make(
 		[]chain.Address,
